@@ -188,6 +188,8 @@ def atomic(ctx) -> None:
                             writes.append(s)
                 ok_order = bool(writes) and graph.must_pass(cfg.ENTRY, pst, via=writes, normal_only=True) and not any(graph.reaches(pst, w, normal_only=True) for w in writes)
                 ctx.check(ok_order, 'R-ATOMIC.1', fn, f'{mname}: the temporary is completely written on every path before it is published, never after', p, key=f'{mname}:write-before-publish')
+                open_withs = [a for a in core.ancestors(p) if isinstance(a, (ast.With, ast.AsyncWith)) and any(tmpname in core.src(i.context_expr) and '.open(' in core.src(i.context_expr) for i in a.items)]
+                ctx.check(not open_withs, 'R-ATOMIC.1', fn, f'{mname}: the temporary is closed (flushed) before it is renamed onto the marker - publishing inside the `with {tmpname}.open(...)` block exposes an empty/partial file if the process dies before the block exits', p, key=f'{mname}:publish-after-close')
     ctx.floor('R-ATOMIC.sites', nsites, 4)
     # R-OWNER: marker paths are touched only by the posix Registry
     outside = []
